@@ -291,7 +291,7 @@ func (w *lruWorld) put(op string, kind cache.EntryKind, hash string, content []b
 
 func (w *lruWorld) step(rng *rand.Rand) {
 	ctx := context.Background()
-	ops := []string{"put", "put", "put", "put-exact-fit", "put-one-over", "put-ac", "put-raw", "put-ac", "overwrite-cas", "put-badhash", "put-oversize",
+	ops := []string{"put", "put", "put", "put-exact-fit", "put-one-over", "put-ac", "put-raw", "put-ac", "overwrite-cas", "put-badhash", "put-oversize", "overwrite-oldest", "put-zero",
 		"get", "get-unknown", "getzstd", "contains", "findmissing", "getvalidated", "refresh-oldest", "refresh-oldest", "contains-wrongsize", "get-miss"}
 	if w.px != nil {
 		ops = append(ops, "fetch", "fetch", "fetch-unknown", "fetch-miss", "fetch-miss", "fetch-ac")
@@ -324,11 +324,44 @@ func (w *lruWorld) step(rng *rand.Rand) {
 		if room < 1 || room > w.max {
 			return
 		}
+		content := "random"
 		if w.storage != "uncompressed" && room > 256 {
-			room -= 64 // header; incompressible content: on-disk ~ logical + header (+ a few bytes); stays within the block in most cases
+			if rng.IntN(2) == 0 {
+				room -= 64 // header; incompressible content: on-disk ~ logical + header (+ a few bytes); stays within the block in most cases
+			} else {
+				content = "text" // compressible: the logical size is the larger one and decides
+			}
 		}
-		b := lib.GenBlob(rng, int(room), "random", w.caseID+fmt.Sprint(len(w.hist)))
+		b := lib.GenBlob(rng, int(room), content, w.caseID+fmt.Sprint(len(w.hist)))
 		w.put(op, cache.CAS, lib.Sha256Hex(b), b, int64(len(b)), bytes.NewReader(b), true)
+	case "put-zero":
+		// zero-length values are legal in the raw key space and at the disk API
+		kind := []cache.EntryKind{cache.RAW, cache.AC}[rng.IntN(2)]
+		h := w.acKeys[rng.IntN(len(w.acKeys))]
+		w.put(op, kind, h, nil, 0, bytes.NewReader(nil), true)
+		if w.has(cache.LookupKey(kind, h)) {
+			w.acVals[cache.LookupKey(kind, h)] = nil
+		}
+	case "overwrite-oldest":
+		// the key written is the least recently used one, i.e. the next eviction victim
+		if len(w.order) == 0 {
+			return
+		}
+		k := w.order[len(w.order)-1]
+		kind, h := splitKey(k)
+		if kind == cache.CAS {
+			for _, c := range w.cas {
+				if c.hash == h {
+					w.put(op, kind, h, c.content, int64(len(c.content)), bytes.NewReader(c.content), true)
+				}
+			}
+			return
+		}
+		val := w.makeValidAR(rng)
+		w.put(op, kind, h, val, int64(len(val)), bytes.NewReader(val), true)
+		if w.has(k) {
+			w.acVals[k] = val
+		}
 	case "put-ac", "put-raw":
 		kind := cache.AC
 		if op == "put-raw" {
@@ -674,7 +707,8 @@ func runC05(r *lib.Run) {
 	defer disk.VerifSetHook(nil)
 	for i := 0; i < nHist; i++ {
 		storage := []string{"zstd", "uncompressed"}[rng.IntN(2)]
-		maxes := []int64{8 * lib.KiB, 16 * lib.KiB, 20 * lib.KiB, 64 * lib.KiB, 100 * lib.KiB, 512 * lib.KiB, 2 * lib.MiB, 6 * lib.MiB}
+		// (max_size need not be a multiple of the 4 KiB accounting block)
+		maxes := []int64{8 * lib.KiB, 16 * lib.KiB, 20 * lib.KiB, 64 * lib.KiB, 100 * lib.KiB, 512 * lib.KiB, 2 * lib.MiB, 6 * lib.MiB, 10000, 20479, 65537, 100*lib.KiB + 123, 2*lib.MiB + 4095}
 		max := maxes[rng.IntN(len(maxes))]
 		dir := pool.Get()
 		o := lib.ServerOpts{Dir: dir, MaxSize: max, Storage: storage, ZstdImpl: []string{"go", "cgo"}[rng.IntN(2)]}
